@@ -588,7 +588,7 @@ static void analyze(Case& c, int threadsBefore, int threadsAfter, int leftover, 
     const bool realPid = o.ps > 0 && o.pid > 0;
     auto LV = [&](const std::string& key) { viol(P, key, launchJson(c, (int)l)); };
 
-    if (o.compl_ != 1) { LV("completion callback fired " + num(o.compl_) + " times for one launch"); continue; }
+    if (o.compl_ != 1) { LV(o.compl_ ? "completion callback fired more than once for one launch" : "completion callback never fired for a launch"); continue; }
     if (o.ps != o.pf || o.ps > 1) LV("processStarted/processFinished not paired exactly once (" + num(o.ps) + "/" + num(o.pf) + ")");
     if (o.ps == 0) {
       bump("launches_without_processStarted");
@@ -1348,7 +1348,7 @@ static void runCase(const std::string& profile, uint64_t seed, int index, bool t
   // quiescence: background threads exit right after their completion callback; allow them a moment
   setHangContext(P, "waiting for quiescence");
   int threadsAfter = count_threads();
-  for (int i = 0; i < 2000 && threadsAfter != baselineThreads; ++i) { sleep_us(1000); threadsAfter = count_threads(); g_lastEvent.store(now_ns()); }
+  for (int i = 0; i < 10000 && threadsAfter != baselineThreads; ++i) { sleep_us(1000); threadsAfter = count_threads(); g_lastEvent.store(now_ns()); }
   std::string which;
   int leftover = count_helper_children(&which);
   g_caseActive.store(0);
